@@ -913,8 +913,31 @@ C14Differ(t, e, o1) ==
        \o <<EqStep(0, 1), EqStep(1, 0), HashOn(0), HashOn(1), ObsOn("source", 0),
             ObsOn("source", 1), MapOn(0, TRUE), MapOn(1, TRUE), EqStep(0, 1)>>)
 
+(* equal call sequences, different observer histories: r0 is observed between *)
+(* the mutating calls (its lazily sorted index is valid when the next call    *)
+(* arrives), r1 is not                                                        *)
+C14Keys == {<<0, 1>>, <<1, 2>>, <<2, 3>>, <<1, 1>>}
+C14Mut(r, k, p, api) ==
+  [op |-> "replace", r |-> r, s |-> p[1], e |-> p[2], c |-> <<cX + k>>,
+   n |-> <<>>, enf |-> 1, api |-> api]
+C14Between == {<<>>, <<ObsOn("source", 0)>>, <<HashOn(0)>>}
+C14Hist(p, b, api) ==
+  LET t == Replace(Orig(<<cA, cB, 99, NL, cA>>), <<>>)
+  IN Prog(<<[op |-> "build", dst |-> 0, tree |-> t], [op |-> "build", dst |-> 1, tree |-> t],
+            C14Mut(0, 1, p[1], api)>> \o b[1] \o <<C14Mut(0, 2, p[2], api)>> \o b[2]
+          \o <<C14Mut(0, 3, p[3], api),
+               C14Mut(1, 1, p[1], api), C14Mut(1, 2, p[2], api), C14Mut(1, 3, p[3], api),
+               EqStep(0, 1), EqStep(1, 0), HashOn(0), HashOn(1),
+               ObsOn("source", 0), ObsOn("source", 1), ObsOn("buffer", 0), ObsOn("buffer", 1),
+               ObsOn("size", 0), ObsOn("size", 1), MapOn(0, TRUE), MapOn(1, TRUE),
+               MapOn(0, FALSE), MapOn(1, FALSE), EqStep(0, 1)>>)
+C14HistScope ==
+  {C14Hist(p, b, api) : p \in [1..3 -> C14Keys], b \in [1..2 -> C14Between],
+                        api \in {"replace", "replace_enf"}}
+
 C14Scope ==
   IF Scope # "c14" THEN {} ELSE
+  C14HistScope \cup
   {C14Same(t, o1, o2) : t \in BaseTrees, o1 \in C14Obs, o2 \in C14Obs}
   \* wrapped pairs one edit apart, with the hash memo of one or both filled
   \cup UNION {{C14Differ(Cached(t), Cached(e), o1) :
